@@ -296,12 +296,19 @@ def background(eng):
         bg.append((("band", "bor", "popcount"), ax))
     for f in TH.pow2_facts():
         bg.append((("pow2",), f))
+    for f in TH.pmod_axioms():
+        bg.append((("pmod",), f))
+    for f in TH.bnot_axioms():
+        bg.append((("bnot",), f))
     for f in LM.rsum_axioms():
         bg.append((("rsum",), f))
     from . import streams
     bg += streams.real_axioms()
     for f in streams.digit_axioms():
         bg.append((("digit",), f))
+    from . import tables
+    for f in tables.axioms(LM.rsum):
+        bg.append((("tcount", "tsize", "lcnt"), f))
     _BG = bg
     return bg
 
@@ -328,7 +335,28 @@ def decl_names(terms):
     return names
 
 
-def solve(eng, ob: Obligation, timeout_ms=30000, extra_axioms=(), seed=0, mbqi=False):
+import os as _os
+NO_PRESIMPLIFY = bool(_os.environ.get("PYVC_NOSIMP"))
+THEORY_SYMBOLS = ("tcount", "tsize", "lcnt", "rsum", "digit", "popcount", "band", "bor", "fsum", "ftot")
+
+
+def relevant_hypotheses(ob):
+    """drop hypotheses that speak about a ghost-theory symbol the goal does not mention (dropping hypotheses is
+    always sound; used as an additional attempt to keep queries small)"""
+    gnames = decl_names([ob.goal])
+    absent = [t for t in THEORY_SYMBOLS if t not in gnames]
+    if not absent:
+        return None
+    keep = []
+    for p in ob.pc:
+        names = decl_names([p])
+        if any(t in names for t in absent):
+            continue
+        keep.append(p)
+    return keep if len(keep) < len(ob.pc) else None
+
+
+def solve(eng, ob: Obligation, timeout_ms=30000, extra_axioms=(), seed=0, mbqi=False, pc=None):
     s = z3.Solver()
     s.set("timeout", timeout_ms)
     if not mbqi:
@@ -336,7 +364,8 @@ def solve(eng, ob: Obligation, timeout_ms=30000, extra_axioms=(), seed=0, mbqi=F
         s.set("smt.mbqi", False)
     if seed:
         s.set("random_seed", seed)
-    names = decl_names(list(ob.pc) + [ob.goal] + list(eng.axioms_extra))
+    hyps = ob.pc if pc is None else pc
+    names = decl_names(list(hyps) + [ob.goal] + list(eng.axioms_extra))
     for keys, ax in background(eng):
         if any(k in names for k in keys):
             s.add(ax)
@@ -344,9 +373,9 @@ def solve(eng, ob: Obligation, timeout_ms=30000, extra_axioms=(), seed=0, mbqi=F
         s.add(ax)
     for ax in extra_axioms:
         s.add(ax)
-    for p in ob.pc:
-        s.add(z3.simplify(p))
-    s.add(z3.simplify(z3.Not(ob.goal)))
+    for p in hyps:
+        s.add(p if NO_PRESIMPLIFY else z3.simplify(p))
+    s.add(z3.Not(ob.goal) if NO_PRESIMPLIFY else z3.simplify(z3.Not(ob.goal)))
     t0 = time.time()
     r = s.check()
     dt = time.time() - t0
@@ -412,13 +441,21 @@ def verify_one(eng, key, ctx=None, timeout_ms=30000, alias=None):
         # 1. E-matching only (fails fast);  2. model-based quantifier instantiation;  3. other seeds
         status, dt, reason, model = "unknown", 0.0, "", None
         backend = "z3-" + z3.get_version_string()
-        plan = ((min(timeout_ms, 5000), 0, False), (min(timeout_ms, 10000), 0, True),
-                (min(timeout_ms, 10000), 7, False), (timeout_ms, 13, True))
-        for tmo, seed, mbqi in plan:
-            status, d, reason, model, _ = solve(eng, ob, tmo, seed=seed, mbqi=mbqi)
+        small = relevant_hypotheses(ob)
+        plan = [(min(timeout_ms, 5000), 0, False, None)]
+        if small is not None:
+            plan.append((min(timeout_ms, 20000), 0, False, small))
+        plan += [(min(timeout_ms, 10000), 0, True, None), (min(timeout_ms, 10000), 7, False, None),
+                 (timeout_ms, 13, True, None)]
+        for tmo, seed, mbqi, hyps in plan:
+            status, d, reason, model, _ = solve(eng, ob, tmo, seed=seed, mbqi=mbqi, pc=hyps)
             dt += d
+            if status == "sat" and hyps is not None:
+                status = "unknown"          # a model of a weakened query refutes nothing
+                continue
             if status != "unknown":
-                backend = "z3-" + z3.get_version_string() + (" mbqi" if mbqi else " ematching")
+                backend = "z3-" + z3.get_version_string() + (" mbqi" if mbqi else " ematching") \
+                    + (" (hypotheses on absent theory symbols dropped)" if hyps is not None else "")
                 break
             if seed == 0 and mbqi and not ("timeout" in reason or "canceled" in reason):
                 break
